@@ -151,4 +151,8 @@ var _ *multierror.Error
 //@   loop 1.2 invariant collected: forall k string :: $visited[k] ==> (exists i int :: 0 <= i && i < len(conditionNames) && conditionNames[i] == k)
 //@   -- dropped (solver: append-with-reallocation case times out): loop 1.2 invariant only_keys: forall i int :: 0 <= i && i < len(conditionNames) ==> has(mdl.GetConditions(), conditionNames[i])
 //@   -- dropped (solver: string order reasoning over the sort model times out at loop entry; preservation is proved): loop 1.3 invariant sorted: forall a int, b int :: 0 <= a && a < b && b < len(conditionNames) ==> !(conditionNames[b] < conditionNames[a])
+//@   -- C12: the names are visited in ascending string order (stated in the shape the sort model gives it: a < b or a == b), so the
+//@   -- order of the conflict errors of one extension / one file is a function of the declared names, not of map iteration
+//@   loop 1.3 invariant sorted_names: forall a int, b int :: 0 <= a && a < b && b < len(conditionNames) ==> conditionNames[a] < conditionNames[b] || conditionNames[a] == conditionNames[b]
+//@   loop 2.1.4 invariant sorted_names: forall a int, b int :: 0 <= a && a < b && b < len(relationNames) ==> relationNames[a] < relationNames[b] || relationNames[a] == relationNames[b]
 //@   loop 1.3 invariant all_keys: forall k string :: has(mdl.GetConditions(), k) ==> (exists i int :: 0 <= i && i < len(conditionNames) && conditionNames[i] == k)
